@@ -72,7 +72,8 @@ def coq_case(case, obs):
 def rand_track(rng):
     k = rng.randint(1, 5)
     pn = rng.choice([0.0, 0.03, 0.03, 0.03, 0.4])                     # one track in five is rich in undefined (NaN) feature values, at any position
-    vals = lambda: [None if rng.random() < pn else rng.choice([0, 1, 2, 3, -1, -2, 0.5, 4] if rng.random() < 0.25 else [1, 2, 3, -1, -2, 0.5, 4]) for _ in range(k)]
+    pz = rng.choice([0.0, 0.03, 0.03, 0.3])                           # ... and one in four is rich in zeros
+    vals = lambda: [None if rng.random() < pn else (0 if rng.random() < pz else rng.choice([1, 2, 3, -1, -2, 0.5, 4])) for _ in range(k)]
     return {'X': [float(rng.randint(-3, 3)) for _ in range(k)], 'Y': [float(rng.randint(-3, 3)) for _ in range(k)],
             'Z': [float(rng.randint(0, 2)) for _ in range(k)], 'a': vals(), 'b': vals(), 's': vals()}
 
@@ -172,6 +173,9 @@ def gen_tree(rng, d, top=True):
     if top and rng.random() < 0.12:                                    # an aggregate directly over a feature, alone or inside arithmetic
         t = ['fun', rng.choice(AGG), ['name', rng.choice(['a', 'b', 's'])]]
         return t if rng.random() < 0.5 else ['bin', rng.choice(['+', '-', '*']), t, gen_tree(rng, 1, False)]
+    if top and rng.random() < 0.08:                                    # a pointwise function of a product / quotient of features: zeros of either sign, NaN
+        inner = ['bin', rng.choice(['*', '*', '/']), ['name', rng.choice(['a', 'b', 's'])], rng.choice([['name', rng.choice(['a', 'b', 's'])], ['neg', ['lit', rng.choice(['2', '0.5'])]]])]
+        return ['fun', rng.choice(['SIGN', 'SIGN', 'ABS', 'DIODE']), inner]
     r = rng.random()
     if d == 0 or r < 0.22:
         return ['name', rng.choice(TNAMES)] if rng.random() < 0.7 else ['lit', rng.choice(['2', '3', '0.5', '10', '1', '0'])]
